@@ -143,8 +143,11 @@ Record scn := mkscn {
   s_dfail : bool;            (* true: destroy is also called after a reported failure ("safe to destroy") *)
   s_values : list res;       (* caller-owned values stored in the container: destroy's free callback must
                                 release each exactly once *)
-  s_retry : bool             (* true: after a reported failure the operation is retried without faults
+  s_retry : bool;            (* true: after a reported failure the operation is retried without faults
                                 ("safe to retry") before destroy runs *)
+  s_cont : list stmt         (* continued use: once the operation (or its retry) has succeeded the object is used
+                                further without faults - more pushes / inserts / allocs up to and beyond the old
+                                capacity - before destroy runs; [] = no continuation *)
 }.
 
 Record outcome := mkout {
@@ -153,11 +156,18 @@ Record outcome := mkout {
   o_live : list res;         (* live after the operation *)
   o_bad : bool;              (* the operation crashed / hung / double-freed *)
   o_base : list res;         (* live before the operation *)
-  o_dlive : list res;        (* live after the following destroy *)
-  o_dbad : bool;             (* destroy crashed / double-freed *)
+  o_dlive : list res;        (* future A: live after the destroy that follows the operation directly *)
+  o_dbad : bool;             (* future A: destroy (or the continued use before it) crashed / double-freed *)
   o_labels : list nat;       (* cleanup blocks entered by the operation, in order *)
   o_retry_ok : bool;         (* no retry was due, or the retry succeeded without crashing *)
-  o_freed : nat              (* how many of s_values the destroy phase released *)
+  o_freed : nat;             (* how many of s_values the destroy phase released *)
+  o_kept : bool;             (* every resource that was live before the operation is still live after it AND is
+                                still pointed to by its field ("the failed call changed nothing") *)
+  o_cont_ok : bool;          (* no continuation was due, or it returned success without crashing *)
+  o_clive : list res;        (* live after the continuation (= after the operation / its retry when none ran) *)
+  o_rdlive : list res;       (* future B (failure, retry, continued use, destroy): live at the end *)
+  o_rdbad : bool;            (* future B crashed / double-freed *)
+  o_rfreed : nat             (* future B: how many of s_values its destroy released *)
 }.
 
 Definition restart (x : st) : st := mkst 0 (live x) (pv x) Ok None (bad x) [].
@@ -165,22 +175,42 @@ Definition restart (x : st) : st := mkst 0 (live x) (pv x) Ok None (bad x) [].
 Definition count_in (vals l : list res) : nat :=
   length (filter (fun r => existsb (Nat.eqb r) vals) l).
 
+Definition is_live (p : pst) : bool := match p with PLive => true | _ => false end.
+Definition no_stmts (l : list stmt) : bool := match l with [] => true | _ => false end.
+
+Definition rc_of (x : st) : rc := match fin x with Some c => c | None => Ok end.
+Definition is_ok (c : rc) : bool := match c with Ok => true | Fail => false end.
+Definition fresh (x : st) : st := mkst (cnt x) (live x) (pv x) Ok None (bad x) [].
+
+(* After the operation TWO futures are followed (two separate runs of the implementation):
+   A  the object is destroyed at once (after a success: once the continued use is over) - "safe to destroy";
+   B  only after a reported failure, when s_retry: the operation is retried without faults, the object is used
+      further (s_cont), then destroyed - "safe to retry". *)
 Definition run_scn (sc : scn) (f : nat -> bool) : outcome :=
   let x0 := restart (exec_list no_fault (s_pre sc) init_st) in
   let x1 := exec_list f (s_op sc) x0 in
-  let rc1 := match fin x1 with Some c => c | None => Ok end in
-  (* retry of the failed operation, no faults *)
-  let retry := match rc1 with Ok => false | Fail => s_retry sc end in
-  let xr := if retry
-            then exec_list no_fault (s_op sc) (mkst (cnt x1) (live x1) (pv x1) Ok None (bad x1) [])
-            else x1 in
-  let rcr := match fin xr with Some c => c | None => Ok end in
-  let x2 := if (match rcr with Ok => true | Fail => s_dfail sc end)
-            then exec_list no_fault (s_destroy sc) (mkst (cnt xr) (live xr) (pv xr) Ok None (bad xr) [])
-            else xr in
-  mkout rc1 (cnt x1) (live x1) (bad x1) (live x0) (live x2) (bad x2) (rev (trace x1))
-        (if retry then (match rcr with Ok => true | Fail => false end) && negb (bad xr) else true)
-        (count_in (s_values sc) (live xr) - count_in (s_values sc) (live x2)).
+  let rc1 := rc_of x1 in
+  let has_cont := negb (no_stmts (s_cont sc)) in
+  (* future A *)
+  let contA := is_ok rc1 && has_cont in
+  let xcA := if contA then exec_list no_fault (s_cont sc) (fresh x1) else x1 in
+  let xA := if (is_ok rc1 || s_dfail sc) then exec_list no_fault (s_destroy sc) (fresh xcA) else xcA in
+  (* future B *)
+  let retry := negb (is_ok rc1) && s_retry sc in
+  let xr := if retry then exec_list no_fault (s_op sc) (fresh x1) else x1 in
+  let rcr := rc_of xr in
+  let contB := retry && is_ok rcr && has_cont in
+  let xcB := if contB then exec_list no_fault (s_cont sc) (fresh xr) else xr in
+  let xB := if retry && (is_ok rcr || s_dfail sc) then exec_list no_fault (s_destroy sc) (fresh xcB) else xcB in
+  let xc := if retry then xcB else xcA in
+  mkout rc1 (cnt x1) (live x1) (bad x1) (live x0) (live xA) (bad xA) (rev (trace x1))
+        (if retry then is_ok rcr && negb (bad xr) else true)
+        (count_in (s_values sc) (live xcA) - count_in (s_values sc) (live xA))
+        (forallb (fun r => existsb (Nat.eqb r) (live x1) && is_live (pv x1 r)) (live x0))
+        (if contA || contB then is_ok (rc_of xc) && negb (bad xc) else true)
+        (live xc)
+        (if retry then live xB else []) (if retry then bad xB else false)
+        (count_in (s_values sc) (live xcB) - count_in (s_values sc) (live xB)).
 
 (* ---------- decision-tree exploration of ALL fault functions ---------- *)
 
@@ -214,16 +244,19 @@ Definition hit (f : nat -> bool) (n : nat) : bool := existsb f (seq 0 n).
 Definition first_hit (f : nat -> bool) (n : nat) : option nat := find f (seq 0 n).
 
 Definition freed_all (sc : scn) (o : outcome) : bool := Nat.eqb (o_freed o) (length (s_values sc)).
+Definition rfreed_all (sc : scn) (o : outcome) : bool := Nat.eqb (o_rfreed o) (length (s_values sc)).
 
 Definition good_ok (sc : scn) (o : outcome) : bool :=
   rc_eqb (o_rc o) Ok && negb (o_bad o) && same_set (o_live o) (s_owns sc)
-  && negb (o_dbad o) && is_nil (o_dlive o) && freed_all sc o.
+  && negb (o_dbad o) && is_nil (o_dlive o) && freed_all sc o && o_cont_ok o.
 
 Definition good_fail (sc : scn) (o : outcome) : bool :=
   (if s_reports sc then rc_eqb (o_rc o) Fail else true) && negb (o_bad o)
   && (if s_retains sc then true else same_set (o_live o) (o_base o))
   && negb (o_dbad o) && is_nil (o_dlive o)
-  && (if s_retry sc then o_retry_ok o && freed_all sc o else true).
+  && (if s_retry sc then o_retry_ok o && rfreed_all sc o && negb (o_rdbad o) && is_nil (o_rdlive o) else true)
+  && (if s_retains sc then true else o_kept o) && o_cont_ok o
+  && (if s_dfail sc then freed_all sc o else true).
 
 Definition good (sc : scn) (f : nat -> bool) (o : outcome) : bool :=
   if hit f (o_att o) then good_fail sc o else good_ok sc o.
@@ -240,7 +273,9 @@ Definition out_eqb (a b : outcome) : bool :=
   && Bool.eqb (o_bad a) (o_bad b) && list_eqb (o_base a) (o_base b)
   && list_eqb (o_dlive a) (o_dlive b) && Bool.eqb (o_dbad a) (o_dbad b)
   && list_eqb (o_labels a) (o_labels b) && Bool.eqb (o_retry_ok a) (o_retry_ok b)
-  && Nat.eqb (o_freed a) (o_freed b).
+  && Nat.eqb (o_freed a) (o_freed b) && Bool.eqb (o_kept a) (o_kept b)
+  && Bool.eqb (o_cont_ok a) (o_cont_ok b) && list_eqb (o_clive a) (o_clive b)
+  && list_eqb (o_rdlive a) (o_rdlive b) && Bool.eqb (o_rdbad a) (o_rdbad b) && Nat.eqb (o_rfreed a) (o_rfreed b).
 
 (* behaviour under the leaf's oracle equals behaviour under its first hit alone *)
 Definition reduces (sc : scn) (q : list bool) : bool :=
